@@ -703,7 +703,7 @@ def apply(op, w, stats):
             if not same(rr, mr):
                 raise Mismatch('model-differs', '%s: result %s %s %r, model %s %s %r' %
                                (dk, rr.typecode, rr.size, list(rr)[:8], mr.tc, mr.size, mr.v[:8]), op='derive.' + dk, tc=M.tc)
-            if all(abs(v) < 1e9 for v in mr.v):
+            if all(abs(v) < 1e6 for v in mr.v):
                 w.bind(nm, rr, mr)        # larger magnitudes would leave the range where all arithmetic is exact
         else:
             if isinstance(rr, matrix) or rr != mr or type(rr) is not type(mr):
@@ -840,6 +840,13 @@ def run_ops(ops, journal, rng=None, nops=0, stats=None, alloc_mode='guard'):
         try:
             apply(op, w, stats)
             check_world(w, name)
+            # products of two entries must stay below 2^53 to be exact in any order of accumulation: names of
+            # objects whose entries have grown beyond 1e6 are dropped after this last exact comparison
+            for nm_ in [nm_ for nm_, oid_ in w.names.items() if any(abs(v_) > 1e6 for v_ in w.objs[oid_]['M'].v)]:
+                del w.names[nm_]
+            live_ = set(w.names.values())
+            for oid_ in [o_ for o_ in w.objs if o_ not in live_]:
+                del w.objs[oid_]
             bad = SPS.check_indices()
             if bad:
                 raise Mismatch('operand-modified', '%s: %s' % (name, bad), op=name, operand='index')
